@@ -135,6 +135,12 @@ def codec():
 
 def reach(plist, vseed):
     ok = True
+    scratch = None
+    if not os.environ.get("VERIF_EVIDENCE_DIR"):
+        # the scaled runs of this self-test must not replace the evidence of the real checks
+        import tempfile
+        scratch = os.environ["VERIF_EVIDENCE_DIR"] = tempfile.mkdtemp(prefix="esutil-reach-", dir="/var/tmp")
+        os.environ.setdefault("VERIF_REPLAY_DIR", os.environ["VERIF_EVIDENCE_DIR"])
     for prop in plist:
         spec = props.SPECS[prop]
         expect = spec.get("expect_reach", [])
@@ -149,6 +155,9 @@ def reach(plist, vseed):
         print("%s: exit %d, %d perturbation kinds fired, missing %r" % (prop, rc, len(cov["faults_fired"]), missing))
         if missing or rc != 0:
             ok = False          # (the unchanged tree must also come out clean: exit 1 or 2 here is a broken check)
+    if scratch:
+        import shutil
+        shutil.rmtree(scratch, ignore_errors=True)
     print("reach selftest: %s" % ("PASS" if ok else "FAIL"))
     return 0 if ok else 1
 
